@@ -617,9 +617,29 @@ def gen_edits(rng, r, n):
         elif k < 0.58 and D["children"] and di > 0:
             ops.append(["repoint", di, rng.randrange(len(D["children"])),
                         rng.choice([None] + list(range(di)) + list(range(di)))])
-        elif k < 0.64:
+        elif k < 0.62:
             ops.append(["rm_def", di])
-        elif k < 0.94:
+        elif k < 0.80:
+            # RENAME an item on the paths of held references / change what a bus index is computed from
+            kind = rng.choice(["child", "child", "port", "cable", "top", "lower_port", "lower_cable", "arr_port", "arr_cable"])
+            newname = "R" + rng.choice(NAMES) + str(rng.randrange(1000))
+            if kind == "child" and D["children"]:
+                ops.append(["rename", "child", di, rng.randrange(len(D["children"])), newname])
+            elif kind == "port" and D["ports"]:
+                ops.append(["rename", "port", di, rng.randrange(len(D["ports"])), newname])
+            elif kind == "cable" and D["cables"]:
+                ops.append(["rename", "cable", di, rng.randrange(len(D["cables"])), newname])
+            elif kind == "top":
+                ops.append(["rename", "top", 0, 0, newname])
+            elif kind == "lower_port" and D["ports"]:
+                ops.append(["lower", "port", di, rng.randrange(len(D["ports"])), rng.choice([-3, 1, 4, 7])])
+            elif kind == "lower_cable" and D["cables"]:
+                ops.append(["lower", "cable", di, rng.randrange(len(D["cables"])), rng.choice([-3, 1, 4, 7])])
+            elif kind == "arr_port" and D["ports"]:
+                ops.append(["toggle_array", "port", di, rng.randrange(len(D["ports"]))])
+            elif kind == "arr_cable" and D["cables"]:
+                ops.append(["toggle_array", "cable", di, rng.randrange(len(D["cables"]))])
+        elif k < 0.95:
             # MOVE something to another parent (remove, then add elsewhere): the old references must die
             dj = rng.randrange(nd)
             E = r["defs"][dj]
@@ -651,8 +671,11 @@ def apply_edit(b, handles, op):
     """handles: per definition the original children/ports/cables lists (objects), so that an op
     addresses the same object whatever was removed before.  Returns 'ok' or the refusal family."""
     try:
-        d = b.defs[op[1]]
-        H = handles[op[1]]
+        if op[0] in ("rename", "lower", "toggle_array"):
+            d = H = None
+        else:
+            d = b.defs[op[1]]
+            H = handles[op[1]]
         if op[0] == "rm_child":
             d.remove_child(H["children"][op[2]])
         elif op[0] == "rm_port":
@@ -667,6 +690,15 @@ def apply_edit(b, handles, op):
             k.reference = None if op[3] is None else b.defs[op[3]]
         elif op[0] == "rm_def":
             d.library.remove_definition(d)
+        elif op[0] == "rename":
+            x = b.nl.top_instance if op[1] == "top" else handles[op[2]][{"child": "children", "port": "ports", "cable": "cables"}[op[1]]][op[3]]
+            x.name = op[4]
+        elif op[0] == "lower":
+            x = handles[op[2]]["ports" if op[1] == "port" else "cables"][op[3]]
+            x.lower_index = op[4]
+        elif op[0] == "toggle_array":
+            x = handles[op[2]]["ports" if op[1] == "port" else "cables"][op[3]]
+            x.is_array = not x.is_array          # refused (RuntimeError) for multi-item bundles
         elif op[0] == "mv_wire":
             w = H["wires"][op[2]][op[3]]
             tgt = handles[op[4]]["cables"][op[5]]
@@ -993,11 +1025,26 @@ def check_c11(res, sess, recipe, rng, tier_scale, edits=None, tag="gen"):
             elab2 = Elab(b.nl, ids)
             qs = []
             for k, h in hs:
-                qs += [{"f": "valid", "h": list(k)}, {"f": "unique", "h": list(k)}]
+                qs += [{"f": "valid", "h": list(k)}, {"f": "unique", "h": list(k)}, {"f": "name", "h": list(k)}]
             ans = sess.ask(qs)
+            ans_names = ans[2::3]
+            ans = [a for i, a in enumerate(ans) if i % 3 != 2]
             for n, (k, h) in enumerate(hs):
                 inp = {"recipe": recipe, "edits": [list(x) for x in done], "href": list(k)}
                 res["evaluations"] += 1
+                # every derived attribute the HELD object exposes must describe the netlist as it is now
+                if k in elab2.all_valid:
+                    try:
+                        nm_i, st_i = h.name, str(h)
+                    except Exception as e:  # noqa
+                        nm_i = st_i = {"exc": exc_family(e)}
+                    if nm_i != elab2.names[k] or st_i != elab2.names[k]:
+                        res.spec_failure("HRef.name.after-edit.held-reference-does-not-follow-the-netlist", inp,
+                                         "name %r str %r expected %r" % (nm_i, st_i, elab2.names[k]))
+                    if nm_i != ans_names[n]["v"]:
+                        res.corr_mismatch("Spydr.Hier.hrefName vs HRef.name (after edits)", inp, nm_i, ans_names[n]["v"])
+                if tuple(path_of(h, ids)) != k or hash(h) != hash(type(h)(h.item, h.parent)):
+                    res.spec_failure("HRef.path-or-hash.changed-after-edit", inp, "")
                 try:
                     iv, iu = timed(lambda: (bool(h.is_valid), bool(h.is_unique)))
                 except QueryTimeout:
